@@ -44,7 +44,16 @@ TICK = 1 / 256
 RESP_TYPES = [26, 25, 21, 27]  # Switch, Sensor, BinarySensor, TextSensor state responses (all have `key`)
 FOREIGN = 24  # LightStateResponse
 CLOSE_ERR = {"eof": "SocketClosedAPIError", "reset": "ReadFailedAPIError", "discreq": "APIConnectionError", "garbage": "ProtocolAPIError",
-             "writefail": "SocketClosedAPIError"}
+             "writefail": "SocketClosedAPIError", "pingfail": "PingFailedAPIError"}
+PING_K = 1.0  # keepalive of a "pingfail" case: the device answers no ping; death = 4.5 K after the first ping following a silent interval
+
+
+def pingfail_tick(case: dict) -> int:
+    """Tick at which the keepalive declares the silent device dead (reference model of C10, in ticks)."""
+    from vf.props import c10
+
+    _p, death = c10.model(PING_K * 256, 0.0, sorted(float(m[0]) for m in case.get("msgs", [])), None)
+    return int(death)
 
 
 def _pred(spec):
@@ -91,6 +100,8 @@ def model(case: dict, t0_tick: int = 0):
     armed_from = None
     if case.get("close") and case["close"][1] == "writefail":
         armed_from = case["close"][0]  # transport.write raises from this tick on: the next request write closes the connection
+    elif case.get("close") and case["close"][1] == "pingfail":
+        pass  # a timer of the connection: ordered below, after the device events of its instant
     elif case.get("close"):
         events.append((case["close"][0], 0, len(events), ("close", case["close"][1])))
     # the list order of same-tick sim events is the order in which run_case registers them
@@ -105,6 +116,8 @@ def model(case: dict, t0_tick: int = 0):
     for i, c in enumerate(calls):
         seqd.append((c["at"] + int(c["timeout"] * 256), 1, reg, ("timeout", i)))
         reg += 1
+    if case.get("close") and case["close"][1] == "pingfail":
+        seqd.append((pingfail_tick(case), 1, -1, ("close", "pingfail")))  # (armed long before the calls' timers of that instant)
     if case.get("close") and case["close"][1] == "reset":
         # a reset only stops the reading at once; the connection learns of it with connection_lost
         # one loop turn later, i.e. after the timers that are due at the same instant
@@ -178,7 +191,8 @@ def run_case(case: dict) -> CaseResult:
 
     res = CaseResult()
     noise = bool(case.get("noise"))
-    s = Session(noise=noise, keepalive=32.0, auto=set())
+    pingfail = bool(case.get("close")) and case["close"][1] == "pingfail"
+    s = Session(noise=noise, keepalive=PING_K if pingfail else 32.0, auto=set())
     env = s.env
     loop = env.loop
     by_id, _ = wire.ids()
@@ -192,6 +206,7 @@ def run_case(case: dict) -> CaseResult:
     last_tick = max(
         [c["at"] + int(c["timeout"] * 256) for c in calls] + [m[0] for m in case.get("msgs", [])] + [0]
         + ([case["close"][0]] if case.get("close") else []) + [o[0] for o in case.get("subs", [])]
+        + ([pingfail_tick(case)] if case.get("close") and case["close"][1] == "pingfail" else [])
     )
 
     def armed_request_timers() -> int:
@@ -292,6 +307,8 @@ def run_case(case: dict) -> CaseResult:
                 if how == "writefail":
                     tr.write_fail = ("raise", OSError(32, "Broken pipe"))
                     return
+                if how == "pingfail":
+                    return  # nothing to inject: the device simply never answers the keepalive pings
                 if how == "eof":
                     tr.feed_eof()
                 elif how == "reset":
@@ -383,7 +400,7 @@ def run_case(case: dict) -> CaseResult:
         got_keys = [k for _t, k in subs.get(sid, {}).get("got", [])]
         if got_keys != want_keys:
             res.violations.append(Violation(ID, "c11:plain-subscription-disturbed", f"subscription {sid} on type {tid} active ticks ({a}, {b}]: got keys {got_keys}, expected {want_keys}"))
-    if closed is None:
+    if True:  # however the calls ended -- connection loss included -- nothing of theirs stays registered
         base_h = dict(snap.get("handlers") or {})
         for sb in subs.values():
             if sb["active"]:
@@ -462,7 +479,11 @@ def _case(draw, tier):
         case["cancels"] = draw(st.lists(st.tuples(st.one_of(tick, st.sampled_from([m[0] for m in msgs] or [0])), st.integers(0, n - 1)).map(list), min_size=1, max_size=2))
     if draw(st.integers(0, 2)) == 0:
         case["close"] = [draw(st.one_of(tick, st.sampled_from([m[0] for m in msgs] or [5]))), draw(st.sampled_from(sorted(CLOSE_ERR)))]
-        if case["close"][1] != "writefail" and draw(st.integers(0, 2)) == 0:
+        if case["close"][1] == "pingfail":
+            for m in msgs:  # arrivals never tie with a keepalive tick or the pong deadline
+                if m[0] % 128 == 0:
+                    m[0] += 1
+        if case["close"][1] not in ("writefail", "pingfail") and draw(st.integers(0, 2)) == 0:
             case["predisc"] = max(0, case["close"][0] - draw(st.sampled_from([0, 1, 2, 8, 100, 600])))
     if draw(st.integers(0, 2)) == 0:
         for c in calls:
@@ -508,6 +529,10 @@ def enumerated(tier):
         for d in (0, 1, 50, 1000):
             yield {"noise": False, "calls": [{"at": 0, "types": [26], "append": None, "stop": ["never"], "timeout": 10}, {"at": 1100, "types": [25], "append": None, "stop": None, "timeout": 2}],
                    "msgs": [[3, 26, 1]], "close": [1200, how], "predisc": 1200 - d}
+    # the device answers no keepalive ping: calls outstanding at the moment the connection is declared dead
+    for msgs in ([], [[3, 26, 1]], [[300, 24, 0], [700, 26, 2]]):
+        yield {"noise": False, "calls": [{"at": 0, "types": [26], "append": None, "stop": ["never"], "timeout": 10}, {"at": 1100, "types": [25, 26], "append": None, "stop": None, "timeout": 10},
+                                         {"at": 300, "types": [25], "append": None, "stop": None, "timeout": 2}], "msgs": msgs, "close": [0, "pingfail"]}
     for how in sorted(CLOSE_ERR):
         for t in (0, 1, 5, 256, 257):
             yield {"noise": False, "calls": [{"at": 0, "types": [26], "append": None, "stop": ["never"], "timeout": 1}, {"at": 4, "types": [25], "append": None, "stop": None, "timeout": 2}], "msgs": [[3, 26, 1]], "close": [t, how]}
